@@ -138,7 +138,7 @@ def worker(params):
     prog = H.get_program()
     S.DIGIT_BOUND[0] = params.get('D', 40)
     S.WORD_BOUND[0] = 4
-    S.BITS_MODE[:] = ['table', 128] if params.get('real_eq') else ['uf', 128]
+    S.BITS_MODE[:] = ['table', 128] if params.get('real_eq') else (['ladder', 192] if params.get('refine_bits') else ['uf', 128])
     kind = params['kind']
     saved = list(E.DEFAULT_OVERRIDES)
     try:
@@ -306,6 +306,7 @@ def main(tier):
     rep.validation_mismatches = mism
     results = H.run_parallel(tasks, worker, progress=2000)
     rep.add(results)
+    refined = {}
     for r in results:
         for v in r['violations']:
             ok, out = confirm(v)
@@ -313,8 +314,31 @@ def main(tier):
             if ok:
                 v['replay_file'] = H.write_replay_file(PROP, v)
                 rep.confirmed.append(v)
-            else:
+                continue
+            # Counterexample refinement: bits() is an uninterpreted function in the first pass (the pinned code only uses it
+            # to pick which operand to clone).  A model that does not replay may rest on an impossible bits() value: re-decide
+            # the task with the exact bit-length facts; only what survives is reported (confirmed or unconfirmed).
+            t = v['task']
+            key = H.json.dumps(t, sort_keys=True, default=str)
+            if t.get('real_eq') or t.get('refine_bits'):
                 rep.unconfirmed.append(v)
+                continue
+            if key not in refined:
+                rr = worker(dict(t, refine_bits=True))
+                rr = rr if isinstance(rr, list) else [rr]
+                refined[key] = rr
+                rep.extra['tasks_refined_with_exact_bits'] = rep.extra.get('tasks_refined_with_exact_bits', 0) + 1
+                for r2 in rr:
+                    for inc in r2['inconclusive']:
+                        rep.unconfirmed.append({'kind': 'refinement-inconclusive', 'detail': str(inc)[:300], 'task': t, 'model': None, 'native': ''})
+                    for v2 in r2['violations']:
+                        ok2, out2 = confirm(v2)
+                        v2['native'] = out2
+                        if ok2:
+                            v2['replay_file'] = H.write_replay_file(PROP, v2)
+                            rep.confirmed.append(v2)
+                        else:
+                            rep.unconfirmed.append(v2)
     return rep.finish()
 
 
